@@ -132,7 +132,7 @@ pub fn minimise(prop: &str, case: &AnyCase, class: &str, mut budget: usize) -> A
 }
 
 /// Worker process body: runs indices from, from+stride, ... < to.
-pub fn worker(prop: &str, seed: u64, tier: &str, from: u64, to: u64, stride: u64, mem_cap: u64) {
+pub fn worker(prop: &str, seed: u64, tier: &str, from: u64, to: u64, stride: u64, mem_cap: u64, log_outcomes: bool) {
     quiet_panics();
     if mem_cap > 0 {
         set_mem_cap(mem_cap);
@@ -159,6 +159,22 @@ pub fn worker(prop: &str, seed: u64, tier: &str, from: u64, to: u64, stride: u64
                 std::process::exit(2);
             }
         };
+        if log_outcomes {
+            let v = match &rep.verdict {
+                Verdict::Pass => "pass".to_string(),
+                Verdict::Skip(r) => format!("skip:{}", r),
+                Verdict::Violation { class, detail } => format!("viol:{}:{}", class, detail),
+            };
+            let mut h = crate::rng::hash_bytes(v.as_bytes());
+            h = crate::rng::mix(h, rep.stats.trace_hash);
+            h = crate::rng::mix(h, rep.stats.steps);
+            h = crate::rng::mix(h, rep.stats.sink_ops);
+            h = crate::rng::mix(h, rep.stats.outcome_hash);
+            h = crate::rng::mix(h, crate::rng::hash_bytes(format!("{:?}{:?}{:?}", rep.stats.faults, rep.stats.probes, rep.stats.counters).as_bytes()));
+            h = crate::rng::mix(h, props::case_hash(&case));
+            let mut o = stdout.lock();
+            let _ = writeln!(o, "T {} {:016x}", idx, h);
+        }
         agg.evaluations += 1;
         agg.steps += rep.stats.steps;
         agg.nonzero_decisions += rep.stats.nonzero_decisions;
@@ -630,6 +646,91 @@ pub fn replay(path: &str, mem_cap: u64) -> i32 {
         1
     } else {
         println!("replay of {} does not violate property {}", path, rf.property);
+        0
+    }
+}
+
+/// Determinism self-test: the same run indices executed twice, in different processes and with different
+/// worker counts, must give identical per-run outcome hashes (workload, schedule trace, sink image,
+/// fault/probe counters, verdict).
+pub fn determinism(prop: &str, seed: u64, runs: u64) -> i32 {
+    let exe = std::env::current_exe().expect("current_exe");
+    let collect = |workers: u64| -> Result<BTreeMap<u64, String>, String> {
+        let mut children = vec![];
+        for w in 0..workers {
+            let child = Command::new(&exe)
+                .arg("worker")
+                .arg(prop)
+                .arg("--seed")
+                .arg(seed.to_string())
+                .arg("--tier")
+                .arg("quick")
+                .arg("--from")
+                .arg(w.to_string())
+                .arg("--to")
+                .arg(runs.to_string())
+                .arg("--stride")
+                .arg(workers.to_string())
+                .arg("--log-outcomes")
+                .arg("1")
+                .stdout(Stdio::piped())
+                .stderr(Stdio::null())
+                .spawn()
+                .map_err(|e| e.to_string())?;
+            children.push(child);
+        }
+        let mut map = BTreeMap::new();
+        for c in children {
+            let out = c.wait_with_output().map_err(|e| e.to_string())?;
+            for line in String::from_utf8_lossy(&out.stdout).lines() {
+                if let Some(rest) = line.strip_prefix("T ") {
+                    let mut it = rest.split_whitespace();
+                    if let (Some(i), Some(h)) = (it.next(), it.next()) {
+                        map.insert(i.parse::<u64>().unwrap_or(u64::MAX), h.to_string());
+                    }
+                }
+            }
+        }
+        Ok(map)
+    };
+    let a = match collect(1.max(runs.min(3))) {
+        Ok(m) => m,
+        Err(e) => {
+            println!("HARNESS-ERROR: {}", e);
+            return 2;
+        }
+    };
+    let b = match collect(16) {
+        Ok(m) => m,
+        Err(e) => {
+            println!("HARNESS-ERROR: {}", e);
+            return 2;
+        }
+    };
+    let c = collect(5).unwrap_or_default();
+    let mut mismatches = 0;
+    for (i, h) in &a {
+        if b.get(i) != Some(h) || c.get(i) != Some(h) {
+            mismatches += 1;
+            if mismatches <= 5 {
+                println!("run {} differs: {} vs {:?} vs {:?}", i, h, b.get(i), c.get(i));
+            }
+        }
+    }
+    println!(
+        "determinism property={} seed={} runs={} executions=3 (3, 16 and 5 worker processes) mismatches={}",
+        prop,
+        seed,
+        a.len(),
+        mismatches
+    );
+    if a.len() as u64 != runs.min(a.len() as u64).max(1) && a.is_empty() {
+        println!("HARNESS-ERROR: no outcomes collected");
+        return 2;
+    }
+    if mismatches > 0 {
+        2
+    } else {
         0
     }
 }
